@@ -38,8 +38,9 @@ def make_case(i, rng, tier):
     decl = D.gen_decl(rng, base=rng.choice(["Schema", "Schema", "DataClass"]))  # the statement is about data classes
     # how the class options are written: an Options(...) instance, or the class form (also derived from a shared Options subclass)
     decl["options_form"] = rng.choice([None, None, None, "class", "class-inherit"]) if decl["options"] else None
+    sub_after = rng.choice([None, None, None, {"case_insensitive": True}, {"case_insensitive": True, "ignore_required": True}, {"addition": True, "no_default": True}])
     inputs = [D.gen_input(rng, decl) for _ in range(6)]
-    return {"decl": decl, "inputs": inputs}
+    return {"decl": decl, "inputs": inputs, "sub_after": sub_after}
 
 
 # options about defaults / requiredness that are documented as usable per call
@@ -69,6 +70,17 @@ def run_case(case, ctx):
         except Exception as e:
             ctx.count("declaration_rejected:" + type(e).__name__)
             return
+        if case.get("sub_after") and decl["base"] != "function":
+            # a subclass with OTHER options is declared before the class is used: the class itself keeps its contract
+            from utype import Options
+            for s, T in list(built.items()):
+                try:
+                    sub = type(T)("SubOf" + T.__name__, (T,), {"__module__": "vmon_generated", "__qualname__": "SubOf" + T.__name__,
+                                                               "__options__": Options(**case["sub_after"])})
+                    built[("sub", s)] = sub
+                    ctx.count("subclass_with_other_options_declared_first")
+                except Exception as e:
+                    ctx.count("subclass_declaration_rejected:" + type(e).__name__)
         shp = D.shape(decl)
         fnames = {f["name"] for f in decl["fields"]}
         for pairs, plan in case["inputs"]:
